@@ -93,10 +93,10 @@ claimed = {
    design="5 (C10)", technique="deductive verification: WP-style VC generation over go/ssa + SMT (queue view of the free list, loop invariant with page-size case split)"),
  "C14": dict(
    text=("The two wait guards of the timing scheduler are under contract for every wavefront state: evalSWaitCnt completes exactly when both outstanding-access counters are at or below the counts the instruction asks for, "
-         "and evalSEndPgm never completes (and changes nothing) while a vector or scalar memory access of the wavefront is outstanding; ScalarUnit.executeSMEMLoad splits a scalar load into fragments that tile the range and marks every fragment but the last as coalescable (the response handler decrements the counter for the unmarked one). Barrier release (evalSBarrier/EvaluateInternalInst), completion messages, "
+         "and evalSEndPgm never completes (and changes nothing) while a vector or scalar memory access of the wavefront is outstanding; ScalarUnit.executeSMEMLoad splits a scalar load into fragments that tile the range and marks every fragment but the last as coalescable (the response handler decrements the counter for the unmarked one). EvaluateInternalInst removes a released work-group from both executing lists when a barrier is passed (site obligations; removeAllWfFromInternalExecuting keeps no wavefront of the released group). Completion messages, "
          "the counter decrements on memory responses and the emulation-mode barrier are not yet under contract."),
    note=(TB + "The helpers the guards call after their decision (work-group scans, completion message, register reset, tracing) are declared external (frame-only). "
-         "Suspect not decided: a wavefront held in the internally-executing list because the barrier buffer is full is released by another wavefront's s_endpgm without being removed from that list (DESIGN.md 9.4)."),
+         "One known finding (demonstrated on the real scheduler in the thorough tier): wavefronts held in the internally-executing list because the barrier buffer is full are released by another wavefront's s_endpgm without leaving that list, and then wait at the passed barrier forever."),
    design="5 (C14)", technique="deductive verification: WP-style VC generation over go/ssa + SMT (pre/postconditions of the guard functions)"),
  "C15": dict(
    text=("Step contracts of the reorder buffer, for every state and message: the copies forwarded to the lower level carry the requester's address, size, PID, data and dirty mask unchanged and are addressed to the bottom unit "
